@@ -50,7 +50,7 @@ U(dim, sc, off, s) == [dim |-> dim, sc |-> sc, off |-> off, s |-> s]
 NoU == U(Dim0, ROne, RZero, "-")
 Dless == U(Dim0, ROne, RZero, "dimensionless")
 \* the dyadic model registry (harness/impl_c18.py builds exactly this) + a few default symbols
-UnitNames == {"la", "lb", "ta", "K", "oc", "tl", "na"}
+UnitNames == {"la", "lb", "ta", "K", "oc", "tl", "na", "lr"}
 UnitOf(nm) ==
   CASE nm = "la" -> U(DimL, ROne, RZero, "la")
     [] nm = "lb" -> U(DimL, R(8), RZero, "lb")
@@ -59,6 +59,7 @@ UnitOf(nm) ==
     [] nm = "oc" -> U(DimTh, ROne, R(-4), "oc")       \* offset scale: K = oc + 4
     [] nm = "tl" -> U(DimTL, ROne, RZero, "T*la")      \* not reducible in cgs
     [] nm = "na" -> Dless
+    [] nm = "lr" -> U(Dim0, R(8), RZero, "lb/la")       \* dimensionless ratio whose spelling cancels to a coefficient
     [] nm = "J" -> U(DimE, ROne, RZero, "J")
     [] nm = "Hz" -> U(DimF, ROne, RZero, "Hz")
     [] OTHER -> NoU
@@ -190,7 +191,8 @@ OpqSeq(L) == [i \in 1..L |-> Opaque]
 
 (* ---- binary ufuncs (array.py __array_ufunc__, binary branch) ---- *)
 \* result of the unit decision: [ex, late, n (numbers), u, bare]
-\*   late = TRUE : today's code raises AFTER the ufunc was evaluated into out= (temperature guard of multiply/divide)
+\*   late = TRUE : the code raises AFTER the ufunc was evaluated into out= (was the case for the temperature guard of
+\*   multiply/divide and for unary unit rules until 8abeb06; kept as a field, FALSE everywhere on the repaired tree)
 BinRes(ex, late, n, u, bare) == [ex |-> ex, late |-> late, n |-> n, u |-> u, bare |-> bare, early |-> FALSE]
 BinFail == BinRes(TRUE, FALSE, <<>>, NoU, FALSE)
 Elem(f, a, b) == CASE f = "add" -> NAdd(a, b) [] f = "sub" -> NSub(a, b) [] f = "mul" -> NMul(a, b) [] f = "div" -> NDiv(a, b)
@@ -205,13 +207,9 @@ Binary(f, xn, ux, xdt, yn, uy, ydt, ybare, yscalar) ==
      ELSE IF ~(yscalar \/ lx = 1 \/ lx = ly) THEN BinFail
      ELSE IF ~yscalar /\ lx # 1 /\ ~IsDless(ux) /\ (\E j \in DOMAIN yn : yn[j] # yn[1]) THEN BinFail
      ELSE LET e == IF yscalar \/ lx # 1 THEN yn[1] ELSE ROne IN
-          BinRes(FALSE, FALSE, Zip("pow", xn, yn, L), UPowN(ux, e), FALSE)
-  ELSE IF f \in {"add", "sub", "lt", "eq"} /\ ybare /\ ~UEq(ux, uy) /\ (\A j \in DOMAIN xn : NIsZero(xn[j]))
-          /\ ~(f = "add" /\ IsTemp(ux) /\ HasOff(uy) /\ ~HasOff(ux) /\ ux.s \in {"K", "R"}) THEN
-     \* the bare-zero exception, seen from the other side: an all-zero unyt operand next to a bare operand adopts
-     \* the bare operand's (dimensionless) unit
-     IF ~shapeok THEN BinFail
-     ELSE BinRes(FALSE, FALSE, Zip(f, xn, yn, L), IF f \in {"lt", "eq"} THEN NoU ELSE uy, f \in {"lt", "eq"})
+          \* Unit.__pow__ refuses a unit with an offset for every exponent other than 1 (8822ad9)
+          IF HasOff(ux) /\ e # ROne THEN BinFail
+          ELSE BinRes(FALSE, FALSE, Zip("pow", xn, yn, L), UPowN(ux, e), FALSE)
   ELSE IF f \in {"add", "sub", "lt", "eq"} THEN
      \* K/R guard (rule _preserve_units only)
      IF f = "add" /\ IsTemp(ux) /\ HasOff(uy) /\ ~HasOff(ux) /\ ux.s \in {"K", "R"} THEN BinFail
@@ -220,7 +218,7 @@ Binary(f, xn, ux, xdt, yn, uy, ydt, ybare, yscalar) ==
         ELSE IF ~shapeok THEN BinFail
         ELSE BinRes(FALSE, FALSE, Zip(f, xn, yn, L), IF f \in {"lt", "eq"} THEN NoU ELSE ux, f \in {"lt", "eq"})
      ELSE
-        \* (bare 2 is not zero: no bare-zero exception) a comparison lets a dimensionless side adopt the other unit,
+        \* (bare 2 is not zero and only a BARE all-zero operand may adopt a unit (6892f1e): no bare-zero exception here) a comparison lets a dimensionless side adopt the other unit,
         \* then falls through to the conversion below
         LET adopt == f \in {"lt", "eq"} /\ ux.dim # uy.dim /\ (IsDless(ux) \/ IsDless(uy))
             ux2 == IF adopt /\ IsDless(ux) THEN uy ELSE ux
@@ -244,14 +242,14 @@ Binary(f, xn, ux, xdt, yn, uy, ydt, ybare, yscalar) ==
               nums == IF post THEN [i \in 1..L |-> NMul(raw[i], ur.u.sc)] ELSE raw
               uu == IF post THEN Dless ELSE ur.u
               guard == (HasOff(ux) /\ IsTemp(ux)) \/ (HasOff(uy) /\ IsTemp(uy)) IN
-          BinRes(guard, guard, nums, uu, FALSE)
+          BinRes(guard, FALSE, nums, uu, FALSE)                   \* the guard is asked before the evaluation (8abeb06)
 
-(* ---- unary ufuncs: evaluated first, unit rule afterwards ---- *)
+(* ---- unary ufuncs: unit rule first (8abeb06), then the evaluation ---- *)
 Unary(f, xn, ux) ==
   IF f = "negative" THEN BinRes(FALSE, FALSE, MapN(NNeg, xn), ux, FALSE)
-  ELSE \* square: _square_unit = u * u (Unit.__mul__ refuses offset units - after the evaluation)
-       LET late == HasOff(ux) IN
-       BinRes(late, late, [i \in DOMAIN xn |-> NMul(xn[i], xn[i])], IF late THEN NoU ELSE USq(ux), FALSE)
+  ELSE \* square: _square_unit = u * u (Unit.__mul__ refuses offset units)
+       LET bad == HasOff(ux) IN
+       BinRes(bad, FALSE, [i \in DOMAIN xn |-> NMul(xn[i], xn[i])], IF bad THEN NoU ELSE USq(ux), FALSE)
 
 ResObj(r) == IF r.bare THEN Dead ELSE Obj(IF Len(r.n) = 1 THEN "Q" ELSE "A", "f8", r.u, r.n)
 
@@ -263,7 +261,7 @@ IntoOut(S, t, r, yscalar) ==
   ELSE IF r.early /\ yscalar THEN Raise(S1)                     \* early return of ==: out[:] = ret[:] on a 0-d ret (IndexError)
   ELSE IF ~(Len(r.n) = LenOf(S, t) \/ (Len(r.n) = 1 /\ S[t].k = "A") \/ (Len(r.n) = 1 /\ LenOf(S, t) = 1)) THEN Raise(S1)
   ELSE LET S2 == Put(S1, t, Bc(r.n, LenOf(S, t)), IF r.ex THEN S1[t].u ELSE IF r.bare THEN Dless ELSE r.u, S1[t].dt) IN
-       IF r.ex THEN Raise(S2)                                    \* today's code: evaluated into out=, then refused
+       IF r.ex THEN Raise(S2)                                    \* (late refusal: evaluated into out=, then refused)
        ELSE Ok(S2, Dead)
 
 \* operator forms go through ndarray.__pow__, whose fast path turns x ** 2 into np.square(x)
@@ -279,7 +277,7 @@ Apply(S, c) ==
          IF r.ex \/ c.op # "to_value" THEN r ELSE Ok(S, Dead)
     [] c.op \in {"in_base", "in_mks", "in_cgs"} ->
          LET b == UBase(S[x].u, IF c.op = "in_cgs" THEN "cgs" ELSE "mks") IN
-         IF ~b.ok THEN Raise(S) ELSE Ok(S, Obj(S[x].k, "f8", b.u, ConvNums(S[x].n, S[x].u, b.u)))
+         IF ~b.ok THEN Raise(S) ELSE Ok(S, Obj(S[x].k, FloatOfCopy(S[x].dt), b.u, ConvNums(S[x].n, S[x].u, b.u)))   \* via in_units (36aece9)
     [] c.op = "convert_to_units" -> ConvInplace(S, x, Target_(c.u))
     [] c.op \in {"convert_to_base", "convert_to_mks", "convert_to_cgs"} ->
          LET b == UBase(S[x].u, IF c.op = "convert_to_cgs" THEN "cgs" ELSE "mks") IN
@@ -348,8 +346,7 @@ Apply(S, c) ==
     [] c.op = "ubase" -> Ok(S, Obj("U", "", UBase(S[x].u, "mks").u, <<>>))
     [] c.op = "ucoeff" -> Ok(S, Obj("U", "", U(S[x].u.dim, Opaque, S[x].u.off, "?"), <<>>))
     [] c.op = "ucopy" -> Ok(S, Obj("U", "", S[x].u, <<>>))
-    \* today's code: simplify() rewrites the expression of the object it is called on and returns it
-    \* (same value; the spelling is not modelled by T)
+    \* simplify() returns a new unit of the same value (8c7dbb1); the spelling is not modelled by T
     [] c.op = "usimplify" -> Ok(S, Obj("U", "", S[x].u, <<>>))
     [] c.op = "units_simplify" -> Ok(S, Obj("U", "", S[x].u, <<>>))
     [] OTHER -> Raise(S)
@@ -411,8 +408,18 @@ Sane(B, o) == o \notin Slots \/ ~(IsInt(B[o].dt) /\ \E j \in DOMAIN B[o].n : IsO
 TwinApplies(B, c) == /\ TwinOp(c) # "" /\ ~(c.op \in {"setitem0", "setitemall", "copyto"} /\ IsInt(B[Target(c)].dt))
                      /\ ~(c.op = "convert_to_equivalent" /\ SizeOf(B[Target(c)].dt) # 8)
                      /\ Sane(B, c.x) /\ Sane(B, c.y) /\ Sane(B, Target(c))
+\* (an in-place call computes in the target's own item size, the copying call possibly wider: where a result is not a
+\*  small exact number - overflow to inf in float16/float32, wrap-around of int16 - the two differ by range/precision,
+\*  which is C17's subject; on 8-byte data the comparison is always made)
+Narrow(B, Af, c, tw) == SizeOf(B[Target(c)].dt) # 8 /\ ((\E j \in DOMAIN Af[Target(c)].n : IsOpq(Af[Target(c)].n[j])) \/ (\E j \in DOMAIN tw.n : IsOpq(tw.n[j])))
 P4_Twin(B, Af, c, ex, tw) ==
-  (IsInplace(c) /\ ~ex /\ TwinApplies(B, c)) => (~tw.ex /\ TwinNums(c, Af[Target(c)].n, B[Target(c)].n, tw.n))
+  (IsInplace(c) /\ ~ex /\ TwinApplies(B, c) /\ ~Narrow(B, Af, c, tw)) => (~tw.ex /\ TwinNums(c, Af[Target(c)].n, B[Target(c)].n, tw.n))
+
+\* where does an offset unit sit in this call? (part of the finding key: tells a refusal caused by an operand from one
+\* caused by the out= object's own old unit)
+OffIn(B, c) ==
+  LET opnd == {o \in {c.x, c.y} \cap Slots : HasOff(B[o].u)} IN
+  IF opnd # {} THEN "operand" ELSE IF Target(c) \in Slots /\ HasOff(B[Target(c)].u) THEN "target-only" ELSE "none"
 
 FailedClauses(B, Af, c, ex, tw) ==
   (IF P1_NoMut(B, Af, c) THEN {} ELSE {"P1_NoMut"}) \cup (IF P2_Target(B, Af, c, ex) THEN {} ELSE {"P2_FailIntact"})
